@@ -17,6 +17,7 @@ import (
 	"path/filepath"
 	"sort"
 	"strings"
+	"sync"
 	"testing"
 	"time"
 
@@ -30,6 +31,7 @@ import (
 	"github.com/AdguardTeam/AdGuardHome/internal/vutil"
 	"github.com/AdguardTeam/AdGuardHome/internal/whois"
 	"github.com/AdguardTeam/golibs/logutil/slogutil"
+	"github.com/AdguardTeam/golibs/timeutil"
 	"github.com/miekg/dns"
 	"go.etcd.io/bbolt"
 )
@@ -83,7 +85,6 @@ type c08Ctx struct {
 	qlog      querylog.QueryLog
 	st        *stats.StatsCtx
 	srv       *dnsforward.Server
-	handlers  map[string]http.HandlerFunc
 	refuseAny bool
 	dhcp      *c08DHCP
 	// unit is the statistics unit-id clock of the block (hours).
@@ -104,11 +105,9 @@ func c08Drop() {
 	if c08 == nil {
 		return
 	}
-	if c08.st != nil {
-		_ = c08.st.Close()
-	}
 	if c08.srv != nil {
-		c08.srv.Close()
+		closeDNSServer()
+		globalContext.stats, globalContext.queryLog = nil, nil
 	}
 	_ = os.RemoveAll(c08.dir)
 	c08 = nil
@@ -223,7 +222,7 @@ func c08Reset(f []string) []string {
 		dhcp.macs[a] = net.HardwareAddr(vutil.Unhex(l[1]))
 	}
 
-	c := &c08Ctx{dir: c08TempDir(), refuseAny: refuseAny, dhcp: dhcp, unit: 480000, peers: map[netip.Addr]bool{}}
+	c := &c08Ctx{dir: c08TempDir(), refuseAny: refuseAny, dhcp: dhcp, peers: map[netip.Addr]bool{}}
 	c08 = c
 	// Optional trailing fields: the fix flag (read by the driver only), then the
 	// disallowed clients as typed identifiers.
@@ -241,11 +240,20 @@ func c08Reset(f []string) []string {
 // client objects, the two switches, the two ignore lists, the anonymisation
 // flag.  It is used at reset and at restart.
 func (c *c08Ctx) start(objs []*clientObject, anon, qlogOn, statsOn bool, ignQ, ignS []string) []string {
-	c.handlers = map[string]http.HandlerFunc{}
-	reg := func(method, url string, h http.HandlerFunc) { c.handlers[method+" "+url] = h }
 	logger := slogutil.NewDiscardLogger()
 
-	c.clients = &clientsContainer{testing: true, clientChecker: c08Checker{}}
+	// The globals initDNS and the registered handlers read.
+	globalContext.mux = http.NewServeMux()
+	globalContext.firstRun = false
+	globalContext.web = &webAPI{}
+	globalContext.workDir = c.dir
+	globalContext.confFilePath = filepath.Join(c.dir, "AdGuardHome.yaml")
+	tlsMgr := &tlsManager{mu: &sync.Mutex{}, conf: &tlsConfigSettings{}, logger: logger}
+	globalContext.tls = tlsMgr
+
+	globalContext.clients.storage = nil
+	globalContext.clients.testing = true
+	c.clients = &globalContext.clients
 	err := c.clients.Init(
 		context.Background(),
 		logger,
@@ -266,73 +274,43 @@ func (c *c08Ctx) start(objs []*clientObject, anon, qlogOn, statsOn bool, ignQ, i
 		}
 	}
 
-	// The rest follows initDNS.
+	// What the configuration file holds.
 	config.DNS.AnonymizeClientIP = anon
-	anonymizer := config.anonymizer()
+	config.DNS.RefuseAny = c.refuseAny
+	config.DNS.DisallowedClients = c.blocked
+	config.DNS.AllowedClients = nil
+	config.QueryLog.Enabled = qlogOn
+	config.QueryLog.FileEnabled = true
+	config.QueryLog.Interval = timeutil.Duration(24 * time.Hour)
+	config.QueryLog.MemSize = 256
+	config.QueryLog.Ignored = ignQ
+	config.Stats.Enabled = statsOn
+	config.Stats.Interval = timeutil.Duration(24 * time.Hour)
+	config.Stats.Ignored = ignS
+	config.Filtering.DataDir = c.dir
+	// No rDNS / WHOIS lookups of client addresses by the address processor (they
+	// need the network); runtime records are driven by the runtime operation.
+	config.Clients.Sources.RDNS = false
+	config.Clients.Sources.WHOIS = false
 
-	engS, err := aghnet.NewIgnoreEngine(ignS)
-	if err != nil {
+	// The REAL wiring: whatever instances initDNS creates and shares (or does
+	// not share) are the ones in use below.
+	if err = initDNS(logger, tlsMgr, c.dir, c.dir); err != nil {
 		panic(err)
 	}
-	c.st, err = stats.New(stats.Config{
-		Logger:            logger,
-		UnitID:            func() uint32 { return c.unit },
-		Filename:          filepath.Join(c.dir, "stats.db"),
-		Limit:             24 * time.Hour,
-		ConfigModified:    func() {},
-		HTTPRegister:      reg,
-		Enabled:           statsOn,
-		ShouldCountClient: c.clients.shouldCountClient,
-		Ignored:           engS,
-	})
-	if err != nil {
-		panic(err)
-	}
+	c.qlog = globalContext.queryLog
+	c.st = globalContext.stats.(*stats.StatsCtx)
+	c.srv = globalContext.dnsServer
+
 	stats.VerifC08NoSync(c.st)
-	// What Start does, minus the never-ending periodic-flush goroutine (its
-	// iteration is driven by the tick operation).
+	if c.unit == 0 {
+		c.unit = stats.VerifC08CurID(c.st)
+	}
+	stats.VerifC08Rebase(c.st, func() uint32 { return c.unit })
+	// What startDNSServer's Start calls do, minus the never-ending goroutines
+	// (their iterations are driven by the tick and rotate operations).
 	stats.VerifC08InitWeb(c.st)
-
-	engQ, err := aghnet.NewIgnoreEngine(ignQ)
-	if err != nil {
-		panic(err)
-	}
-	c.qlog, err = querylog.New(querylog.Config{
-		Logger:            logger,
-		Anonymizer:        anonymizer,
-		ConfigModified:    func() {},
-		HTTPRegister:      reg,
-		FindClient:        c.clients.findMultiple,
-		BaseDir:           c.dir,
-		AnonymizeClientIP: anon,
-		RotationIvl:       24 * time.Hour,
-		MemSize:           256,
-		Enabled:           qlogOn,
-		FileEnabled:       true,
-		Ignored:           engQ,
-	})
-	if err != nil {
-		panic(err)
-	}
-	// What Start does, minus the never-ending rotation goroutine (rotate is
-	// driven by the rotate operation).
 	querylog.VerifC08InitWeb(c.qlog)
-
-	c.srv, err = dnsforward.NewServer(dnsforward.DNSCreateParams{
-		Logger:     logger,
-		Stats:      c.st,
-		QueryLog:   c.qlog,
-		Anonymizer: anonymizer,
-	})
-	if err != nil {
-		panic(err)
-	}
-	if err = dnsforward.VerifC08SetAccess(c.srv, c.blocked); err != nil {
-		panic(err)
-	}
-	// As initDNSServer does: the DNS server answers the finder's question
-	// whether a client is disallowed.
-	c.clients.clientChecker = c.srv
 
 	return []string{"ok"}
 }
@@ -391,16 +369,19 @@ func c08RawDB(db *bbolt.DB) []string {
 // have written to the configuration file.
 func c08Restart() []string {
 	c := c08
-	qc, sc := querylog.Config{}, stats.Config{}
-	c.qlog.WriteDiskConfig(&qc)
-	c.st.WriteDiskConfig(&sc)
-	objs := c.clients.forConfig()
-
-	_ = c.qlog.Shutdown(context.Background())
-	if err := c.st.Close(); err != nil {
+	// The configuration file as written on the last change: the state of the
+	// modules and of the clients container go into the global configuration.
+	if err := config.write(globalContext.tls); err != nil {
 		return []string{"err:" + vutil.Hex(err.Error())}
 	}
-	c.srv.Close()
+	objs := config.Clients.Persistent
+	anon, qlogOn, statsOn := config.DNS.AnonymizeClientIP, config.QueryLog.Enabled, config.Stats.Enabled
+	ignQ, ignS := config.QueryLog.Ignored, config.Stats.Ignored
+
+	// Shutdown: the DNS server, then the statistics (the current unit is
+	// stored) and the query log (the buffer is flushed).
+	closeDNSServer()
+	globalContext.stats, globalContext.queryLog = nil, nil
 	_ = c.clients.close(context.Background())
 
 	db, err := bbolt.Open(filepath.Join(c.dir, "stats.db"), 0o644, &bbolt.Options{ReadOnly: true, Timeout: time.Second})
@@ -410,7 +391,7 @@ func c08Restart() []string {
 	raw := c08RawDB(db)
 	_ = db.Close()
 
-	res := c.start(objs, qc.AnonymizeClientIP, qc.Enabled, sc.Enabled, qc.Ignored.Values(), sc.Ignored.Values())
+	res := c.start(objs, anon, qlogOn, statsOn, ignQ, ignS)
 	if len(res) != 1 || res[0] != "ok" {
 		return res
 	}
@@ -532,18 +513,11 @@ func c08Unit() []string {
 }
 
 func c08HTTP(method, url, body string) (code int, resp []byte) {
-	path := url
-	if j := strings.IndexByte(url, '?'); j >= 0 {
-		path = url[:j]
-	}
-	h := c08.handlers[method+" "+path]
-	if h == nil {
-		panic("no handler for " + method + " " + path)
-	}
 	r := httptest.NewRequest(method, url, strings.NewReader(body))
 	r.Header.Set("Content-Type", "application/json")
 	w := httptest.NewRecorder()
-	h(w, r)
+	// Through the real mux, i.e. the handlers as httpRegister wrapped them.
+	globalContext.mux.ServeHTTP(w, r)
 
 	return w.Code, w.Body.Bytes()
 }
@@ -708,6 +682,16 @@ func c08Run(f []string) []string {
 			"ignored":             c08Strings(f, &i),
 		})
 		code, _ := c08HTTP(http.MethodPut, "/control/querylog/config/update", string(body))
+
+		return c08Status(code)
+	case "C08.qlogconfold":
+		// The legacy handler: enabled and anonymize_client_ip only.
+		body, _ := json.Marshal(map[string]any{
+			"enabled":             vutil.UnB(f[1]),
+			"anonymize_client_ip": vutil.UnB(f[2]),
+			"interval":            1,
+		})
+		code, _ := c08HTTP(http.MethodPost, "/control/querylog_config", string(body))
 
 		return c08Status(code)
 	case "C08.statsconf":
@@ -904,8 +888,13 @@ func c08Addr(r *rand.Rand) string {
 	}
 }
 
-// c08LinkLocal are the addresses persistent clients hold with a zone.
-var c08LinkLocal = []string{c08V6("fe80::1"), c08V6("fe80::2")}
+// c08LinkLocal are the addresses persistent clients hold with a zone (the name
+// is historical): link-local, unique-local, global, and IPv4-mapped ones — the
+// configuration accepts a zone on any IPv6 address.
+var c08LinkLocal = []string{
+	c08V6("fe80::1"), c08V6("fe80::2"), c08V6("fd00::5"), c08V6("2001:db8::5"), c08V6("fec0::7"),
+	c08In6("\xc0\xa8\x01\x05"),
+}
 
 var c08Zones = []string{"eth0", "wlan0"}
 
@@ -1241,6 +1230,11 @@ func c08Gen(r *rand.Rand, emit vutil.Emit) {
 			case x < 80:
 				if r.IntN(3) == 0 {
 					anon = !anon
+				}
+				if r.IntN(4) == 0 {
+					emit("C08.qlogconfold", vutil.B(r.IntN(10) != 0), vutil.B(anon))
+
+					break
 				}
 				g := []string{"C08.qlogconf", vutil.B(r.IntN(10) != 0), vutil.B(anon)}
 				emit(c08EmitStrings(g, c08GenRules(r))...)
